@@ -28,9 +28,10 @@ func starts() []start {
 
 	return []start{
 		{Name: "fresh", Depth: [2]int{5, 6}},
-		{Name: "bound", Prefix: bound, Depth: [2]int{4, 5}},
+		{Name: "bound", Prefix: bound, Depth: [2]int{4, 6}},
 		{Name: "aged", Prefix: aged, Depth: [2]int{3, 5}},
 		{Name: "fresh-core", Depth: [2]int{6, 7}, Core: true},
+		{Name: "bound-core", Prefix: bound, Depth: [2]int{5, 6}, Core: true},
 	}
 }
 
@@ -42,8 +43,14 @@ func (x *exec) menu(core bool) []string {
 	var m []string
 	pend := len(x.pending()) > 0
 	readOK := x.reader == nil && !(x.m.expired(now) && len(x.m.queue) > 0 && !x.m.closed())
+	// A second WriteTo toward an IP whose CreatePermission is still in flight waits
+	// on a sync.Mutex inside the client (perm.mutex), which testing/synctest does
+	// not treat as durably blocked: the bubble could never reach quiescence.
+	// Concurrent writers are therefore enumerated across different peer IPs only
+	// (same-IP writers belong to the controlled-scheduler engine).
+	free := func(p string) bool { return x.pendingWriters() < maxWriters && !x.writerBlockedOn(peerAddrs[p].IP.String()) }
 	if x.m.closed() {
-		if x.pendingWriters() < maxWriters {
+		if free("P1") {
 			m = append(m, "w:P1")
 		}
 		if readOK {
@@ -55,11 +62,11 @@ func (x *exec) menu(core bool) []string {
 
 		return append(m, "in:data:P1", "adv:2s")
 	}
-	if x.pendingWriters() < maxWriters {
+	if free("P1") {
 		m = append(m, "w:P1", "w:P1b")
-		if !core {
-			m = append(m, "w:P2")
-		}
+	}
+	if !core && free("P2") {
+		m = append(m, "w:P2")
 	}
 	if readOK {
 		m = append(m, "read")
@@ -144,6 +151,7 @@ func runHistory(t *testing.T, st start, depth int, ch *rep.Chooser) (out runOut)
 				if ch.Abort {
 					return
 				}
+				rep.Current(map[string]any{"engine": "c13-histories", "start": st.Name, "choices": ch.Taken})
 				x.apply(ev)
 				if x.v != nil {
 					return
@@ -189,6 +197,15 @@ func TestC13Histories(t *testing.T) {
 			out := runHistory(t, st, depth, ch)
 			if !ch.Owned() {
 				return
+			}
+			if g := os.Getenv("C13_GREP"); g != "" {
+				for _, l := range out.rp.Trace {
+					if strings.Contains(l, g) {
+						fmt.Println(st.Name, out.rp.Choices, strings.Join(out.rp.Trace, "\n    "))
+
+						break
+					}
+				}
 			}
 			r.Evaluations++
 			r.Transitions += out.steps
